@@ -157,7 +157,11 @@ pub fn starts_with_parenthese(statement: &Statement) -> bool {
 
 fn expression_ends_with_prefix(expression: &Expression) -> bool {
     match expression {
-        Expression::Binary(binary) => expression_ends_with_prefix(binary.right()),
+        Expression::Binary(binary) => {
+            // the right operand may get wrapped into parentheses when written
+            binary.operator().right_needs_parentheses(binary.right())
+                || expression_ends_with_prefix(binary.right())
+        }
         Expression::Call(_)
         | Expression::Parenthese(_)
         | Expression::Identifier(_)
